@@ -506,24 +506,38 @@ theorem pull_step {w : World} (h : WZ w) (dst src room : Nat) : Step w (w.pull d
   exact hc.trans (step_setPeer hc.1 dst z m)
 
 include hI hR in
-theorem round_step {w : World} (h : WZ w) (room : Nat) : Step w (w.round d room).1 := by
+theorem round_step {w : World} (h : WZ w) (rooms : List Nat) : Step w (w.round d rooms).1 := by
   unfold World.round
   refine foldl_preserves (fun acc : World × Nat => Step w acc.1) _ _ _ (Step.refl h) ?_
   intro acc x hacc
-  exact hacc.trans (pull_step hI hR hacc.1 x.1 x.2 room)
+  exact hacc.trans (pull_step hI hR hacc.1 x.1.1 x.1.2 x.2)
 
 include hI hR in
-theorem settle_step (room : Nat) (fuel : Nat) :
-    ∀ (w : World) (n f : Nat), WZ w → Step w (World.settle d room fuel w n f).1 := by
+theorem settleLoop_step (rooms : List Nat) (fuel : Nat) :
+    ∀ (w : World) (n f : Nat), WZ w → Step w (World.settleLoop d rooms fuel w n f).1 := by
   induction fuel with
   | zero => intro w n f h; exact Step.refl h
   | succ k ih =>
     intro w n f h
-    simp only [World.settle]
-    have hr := round_step hI hR (d := d) h room
+    simp only [World.settleLoop]
+    have hr := round_step hI hR (d := d) h rooms
     split
     · exact hr
     · exact hr.trans (ih _ _ _ hr.1)
+
+theorem recomputeAt_step {w : World} (h : WZ w) (p : Nat) : Step w (w.recomputeAt d p) :=
+  step_setPeer h p (log_noZombie (h.peer p) _) (fun i hi => hi)
+
+include hI hR in
+theorem settle_step {w : World} (h : WZ w) (room max : Nat) : Step w (World.settle d room max w).1 := by
+  unfold World.settle
+  simp only
+  have hc := step_commit h
+  have h0 : Step w ((List.range w.peers.length).foldl (fun acc p => acc.recomputeAt d p) w.commit.1) := by
+    refine foldl_preserves (fun acc : World => Step w acc) _ _ _ hc ?_
+    intro acc p hacc
+    exact hacc.trans (recomputeAt_step hacc.1 p)
+  exact h0.trans (settleLoop_step hI hR _ max _ 0 0 h0.1)
 
 include hI hR in
 /-- one op of a case -/
@@ -553,7 +567,7 @@ theorem exec_step {w : World} (h : WZ w) (op : Op) (hf : op.fresh w) : Step w (w
     · exact Step.refl h
   | settle room max =>
     simp only [World.exec]
-    exact (step_commit h).trans (settle_step hI hR room max _ 0 0 (step_commit h).1)
+    exact settle_step hI hR h room max
 
 /-- all ops of a case are fresh along the run -/
 def runFresh (d : Defects) : World → List Op → Prop
